@@ -38,7 +38,20 @@ func main() {
 	exports := flag.String("exports", "", "directory with the per-package export files")
 	doRewrite := flag.Bool("rewrite", true, "rewrite concurrency constructs (false: exports + shim only)")
 	portable := flag.Bool("portable", false, "drop the fr assembly (portable generic arithmetic)")
+	baselineFile := flag.String("baseline", "", "file listing the package-level variables of the pinned tree (\"<package path> <name>\" per line): only those enter VerifGlobals; variables an edit adds are internal state of the edit, judged by results only")
+	writeBaseline := flag.String("writebaseline", "", "write the baseline list of the tree given by -repo to this file and exit")
 	flag.Parse()
+	if *baselineFile != "" {
+		if b, err := os.ReadFile(*baselineFile); err == nil {
+			baseline = map[string]bool{}
+			for _, ln := range strings.Split(string(b), "\n") {
+				if ln = strings.TrimSpace(ln); ln != "" {
+					baseline[ln] = true
+				}
+			}
+		}
+	}
+	baselineOut = *writeBaseline
 	if *out == "" {
 		panic("need -out")
 	}
@@ -178,7 +191,16 @@ func main() {
 	sort.Strings(keys)
 	b, _ := json.MarshalIndent(map[string]any{"Replace": overlay}, "", " ")
 	os.WriteFile(filepath.Join(*out, "overlay.json"), b, 0o644)
+	if baselineOut != "" {
+		sort.Strings(baselineLines)
+		os.WriteFile(baselineOut, []byte(strings.Join(baselineLines, "\n")+"\n"), 0o644)
+	}
 }
+
+// baseline: nil = every package-level variable enters VerifGlobals.
+var baseline map[string]bool
+var baselineOut string
+var baselineLines []string
 
 type rewriter struct {
 	fset  *token.FileSet
@@ -276,6 +298,8 @@ func (r *rewriter) rewrite() bool {
 		}
 		return true
 	})
+
+	gpMark := r.markGlobalAccesses()
 
 	post := func(c *astutil.Cursor) bool {
 		switch x := c.Node().(type) {
@@ -410,6 +434,7 @@ func (r *rewriter) rewrite() bool {
 		return true
 	}
 	astutil.Apply(r.file, nil, post)
+	r.insertGlobalPoints(gpMark)
 
 	// import rewrites
 	for _, im := range r.file.Imports {
@@ -444,6 +469,180 @@ func (r *rewriter) rewrite() bool {
 		}
 	}
 	return r.need
+}
+
+// ---------- scheduling points at accesses to package-level variables ----------
+//
+// API calls on disjoint arguments can only interfere through memory that is reachable from package-level
+// variables (and from the shared configuration, which is read-only). A scheduling point before and after
+// every simple statement that names a package-level variable of go-ipa (and before every compound statement
+// whose header does) therefore lets the two-callers search switch exactly where unsynchronised shared state
+// is touched: a scratch buffer hoisted to package scope, a memo updated field by field, a result slice that
+// points into a package-level array. The points are inert (one predictable branch) unless a harness turns
+// vsched.GlobalPoints on.
+
+func (r *rewriter) isGlobalVar(id *ast.Ident) bool {
+	v, ok := r.info.Uses[id].(*types.Var)
+	if !ok || v.Pkg() == nil || v.IsField() || !strings.HasPrefix(v.Pkg().Path(), modPath) {
+		return false
+	}
+	if v.Parent() != v.Pkg().Scope() {
+		return false
+	}
+	if v.Name() == "CurveParams" { // read in every point addition, never written after package initialisation
+		return false
+	}
+	// synchronisation objects are visible operations already; sentinel errors are never written
+	ts := v.Type().String()
+	if strings.HasPrefix(ts, "sync.") || strings.HasPrefix(ts, "sync/atomic.") || ts == "error" {
+		return false
+	}
+	return true
+}
+
+// shallowRefsGlobal: does the statement itself (not the statements nested in its blocks, not function
+// literals) name a package-level variable?
+func (r *rewriter) shallowRefsGlobal(st ast.Stmt) bool {
+	found := false
+	var visit func(n ast.Node) bool
+	visit = func(n ast.Node) bool {
+		if found || n == nil {
+			return false
+		}
+		switch x := n.(type) {
+		case *ast.BlockStmt, *ast.FuncLit, *ast.CaseClause, *ast.CommClause:
+			return false
+		case *ast.Ident:
+			if r.isGlobalVar(x) {
+				found = true
+			}
+		}
+		return true
+	}
+	switch x := st.(type) {
+	case *ast.BlockStmt:
+		return false
+	case *ast.LabeledStmt:
+		return r.shallowRefsGlobal(x.Stmt)
+	case *ast.IfStmt:
+		if x.Init != nil {
+			ast.Inspect(x.Init, visit)
+		}
+		ast.Inspect(x.Cond, visit)
+	case *ast.ForStmt:
+		if x.Init != nil {
+			ast.Inspect(x.Init, visit)
+		}
+		if x.Cond != nil {
+			ast.Inspect(x.Cond, visit)
+		}
+		if x.Post != nil {
+			ast.Inspect(x.Post, visit)
+		}
+	case *ast.RangeStmt:
+		ast.Inspect(x.X, visit)
+	case *ast.SwitchStmt:
+		if x.Init != nil {
+			ast.Inspect(x.Init, visit)
+		}
+		if x.Tag != nil {
+			ast.Inspect(x.Tag, visit)
+		}
+	case *ast.TypeSwitchStmt:
+		if x.Init != nil {
+			ast.Inspect(x.Init, visit)
+		}
+		ast.Inspect(x.Assign, visit)
+	case *ast.SelectStmt:
+		return false
+	default:
+		ast.Inspect(st, visit)
+	}
+	return found
+}
+
+func (r *rewriter) markGlobalAccesses() map[ast.Stmt]bool {
+	marks := map[ast.Stmt]bool{}
+	for _, d := range r.file.Decls {
+		fd, ok := d.(*ast.FuncDecl)
+		if !ok || fd.Body == nil {
+			continue
+		}
+		ast.Inspect(fd.Body, func(n ast.Node) bool {
+			var list []ast.Stmt
+			switch x := n.(type) {
+			case *ast.BlockStmt:
+				list = x.List
+			case *ast.CaseClause:
+				list = x.Body
+			case *ast.CommClause:
+				list = x.Body
+			}
+			for _, st := range list {
+				if r.shallowRefsGlobal(st) {
+					marks[st] = true
+				}
+			}
+			return true
+		})
+	}
+	return marks
+}
+
+func gpCall() ast.Stmt { return &ast.ExprStmt{X: &ast.CallExpr{Fun: sel("vsched", "GP")}} }
+
+// simpleFollowable: a point may be placed after the statement (it does not end the flow of control and is
+// not a compound statement).
+func simpleFollowable(st ast.Stmt) bool {
+	switch x := st.(type) {
+	case *ast.AssignStmt, *ast.IncDecStmt, *ast.DeclStmt:
+		return true
+	case *ast.ExprStmt:
+		if c, ok := x.X.(*ast.CallExpr); ok {
+			if id, ok := c.Fun.(*ast.Ident); ok && id.Name == "panic" {
+				return false
+			}
+		}
+		return true
+	}
+	return false
+}
+
+func (r *rewriter) insertGlobalPoints(marks map[ast.Stmt]bool) {
+	if len(marks) == 0 {
+		return
+	}
+	fix := func(list []ast.Stmt) []ast.Stmt {
+		var out []ast.Stmt
+		changed := false
+		for _, st := range list {
+			if marks[st] {
+				changed = true
+				r.count("globalpoint")
+				out = append(out, gpCall(), st)
+				if simpleFollowable(st) {
+					out = append(out, gpCall())
+				}
+				continue
+			}
+			out = append(out, st)
+		}
+		if !changed {
+			return list
+		}
+		return out
+	}
+	ast.Inspect(r.file, func(n ast.Node) bool {
+		switch x := n.(type) {
+		case *ast.BlockStmt:
+			x.List = fix(x.List)
+		case *ast.CaseClause:
+			x.Body = fix(x.Body)
+		case *ast.CommClause:
+			x.Body = fix(x.Body)
+		}
+		return true
+	})
 }
 
 // writeExport prints the export file of one package: functions with type errors become stubs that panic
@@ -488,6 +687,10 @@ func writeExport(fset *token.FileSet, f *ast.File, errs []types.Error, pkg *type
 					continue
 				}
 				if _, isFunc := v.Type().Underlying().(*types.Signature); isFunc {
+					continue
+				}
+				baselineLines = append(baselineLines, pkg.Path()+" "+n)
+				if baseline != nil && !baseline[pkg.Path()+" "+n] {
 					continue
 				}
 				elts = append(elts, &ast.UnaryExpr{Op: token.AND, X: ast.NewIdent(n)})
